@@ -6,7 +6,7 @@
   in keys; absent pair = 0 : 0; `IsCW v w` = `w` is a candidate and `d w o > d o w` for every other
   candidate `o`.
 -/
-import VotelibProofs.Lemmas.BenhamSmith
+import VotelibProofs.Lemmas.Copeland2o
 import VotelibModel.CondorcetRanked
 namespace VL.C05
 open VL VL.Condorcet
@@ -363,6 +363,43 @@ theorem copeland_defining {v : Pairwise} (hwf : WF v) (n : Nat) :
   apply List.map_congr_left
   intro c _
   rw [getD_copelandScoresRaw, winsBy_eq_filter hwf, lossesOf_eq_filter hwf]
+
+/-- **Second-order Copeland follows its defining computation** (every well-formed dictionary, every number of seats):
+    the candidates are ranked by the first-order score `copelandScore` = candidates beaten minus candidates that beat
+    (`get_n_best`, C09); when a boundary tie is left, the places already decided stay, and the candidates of the tie
+    (`tiedOf`, `copeland2o_tied_members`) are ranked — again by `get_n_best`, so that candidates still level are reported as a
+    `Tie` — by `secondOrderScore` = the sum of the first-order scores of the candidates they beat, for the places left. -/
+theorem copeland2o_defining {v : Pairwise} (hwf : WF v) (n : Nat) :
+    copeland true v n =
+      (let best := getNBest ((candidates v).map (fun c => (c, copelandScore v c))) n
+       if best.any isTie then
+         best.filter (fun s => !isTie s) ++
+           getNBest ((tiedOf best).map (fun c => (c, secondOrderScore v c)))
+             (best.length - (best.filter (fun s => !isTie s)).length)
+       else best) := copeland2o_eq hwf n
+
+/-- the candidates re-ranked by the second-order score are exactly the members of the reported boundary tie, each once,
+    in ascending order of their ids (the model's canonical order of the Python `set`) -/
+theorem copeland2o_tied_members (best : List Slot) :
+    (∀ x, x ∈ tiedOf best ↔ ∃ cs, Slot.tie cs ∈ best ∧ x ∈ cs) ∧ (tiedOf best).Pairwise (· < ·) :=
+  ⟨fun _ => mem_tiedOf, sorted_tiedOf best⟩
+
+/-- the two scores, spelled out -/
+theorem copeland2o_scores (v : Pairwise) (c : Cand) :
+    copelandScore v c = (((candidates v).filter (fun o => decide (Beats v c o))).length : Rat)
+        - (((candidates v).filter (fun o => decide (Beats v o c))).length : Rat) ∧
+    secondOrderScore v c = (((candidates v).filter (fun o => decide (Beats v c o))).map (copelandScore v)).sum :=
+  ⟨rfl, rfl⟩
+
+/-- non-vacuity: `0 ~ 1` and `2 ~ 3` tie, `0` and `1` beat `2`, `0` beats `3`, `3` beats `1`: first-order scores 2, 0, -2, 0;
+    for two seats the boundary tie `{1, 3}` is broken by the second-order scores -2 (`1` beats `2`) and 0 (`3` beats `1`) -/
+def exSecondOrder : Pairwise :=
+  [((0, 1), 2), ((1, 0), 2), ((2, 3), 2), ((3, 2), 2), ((0, 2), 3), ((2, 0), 1), ((0, 3), 3), ((3, 0), 1),
+   ((1, 2), 3), ((2, 1), 1), ((1, 3), 1), ((3, 1), 3)]
+example : WF exSecondOrder := by decide +kernel
+example : copeland false exSecondOrder 2 = [Slot.cand 0, Slot.tie [1, 3]] := by decide +kernel
+example : copeland true exSecondOrder 2 = [Slot.cand 0, Slot.cand 3] := by decide +kernel
+example : secondOrderScore exSecondOrder 1 = -2 ∧ secondOrderScore exSecondOrder 3 = 0 := by decide +kernel
 
 /-- **Schulze's strongest paths are correct**: for two distinct candidates the entry of `widest_paths` is the
     strength of some chain of pairwise wins from `a` to `b` (the minimum of the win counts along it, a pair
